@@ -55,7 +55,14 @@ func (ip *Interp) registerIntrinsics() {
 
 	// ---- fmt: opaque ----
 	sprintf := func(ip *Interp, fr *frame, args []Value) Value { return ip.opaqueStr("fmt") }
-	in["fmt.Sprintf"] = sprintf
+	in["fmt.Sprintf"] = func(ip *Interp, fr *frame, args []Value) Value {
+		if ip.path != nil && ip.path.RealFmt {
+			if s, ok := ip.miniSprintf(fr, args[0].(Str), args[1].(Slice)); ok {
+				return ip.mkStr(s)
+			}
+		}
+		return ip.opaqueStr("fmt")
+	}
 	in["fmt.Sprint"] = sprintf
 	in["fmt.Sprintln"] = sprintf
 	in["fmt.Errorf"] = func(ip *Interp, fr *frame, args []Value) Value {
@@ -305,7 +312,7 @@ func (ip *Interp) registerIntrinsics() {
 					return st.T
 				}
 			}
-			f := ip.prog.LookupMethod(err.T, nil, "Unwrap")
+			f := ip.lookupMethodOpt(err.T, "Unwrap")
 			if f == nil {
 				return st.F
 			}
